@@ -913,6 +913,9 @@ class FuncTypes:
         if d == "cast" or d == "typing.cast":
             if len(e.args) == 2:
                 return self.ty.from_annotation(self.m, e.args[0])
+        if d in ("iter", "reversed") and e.args:
+            at = self.type_of(e.args[0], env)
+            return Seq(self._elem_of(at, e.args[0], env), "Iterator")
         if d in ("next",) and e.args:
             return self._elem_of(self.type_of(e.args[0], env), e.args[0], env)
         if d in ("min", "max") and e.args:
